@@ -571,12 +571,21 @@ class StmtMixin(object):
     head_alloc = st.alloc
     # streams written by the loop body: what earlier iterations wrote is an opaque chunk
     if st.bufs and ls.get('writes_streams', True) and any(
-        isinstance(n, ast.Attribute) and n.attr == 'write' for b in body for n in ast.walk(b)):
+        isinstance(n, ast.Attribute) and (n.attr == 'write' or n.attr.startswith('Write')) for b in body for n in ast.walk(b)):
       nb = {}
       for key, bf in st.bufs.items():
         sym, ln = z3.Int(fresh_name('chunk')), z3.Int(fresh_name('chunklen'))
         st.assume(ln >= 0)
         nb[key] = dict(bf, data=list(bf['data']) + [('raw', sym, ln)])
+      st.bufs = nb
+    if st.bufs and any(isinstance(n, ast.Attribute) and (n.attr in ('read', 'Unpack') or n.attr.startswith('Read'))
+                       for b in body for n in ast.walk(b)):
+      # streams read by the loop body: how far earlier iterations got is unknown
+      nb = {}
+      for key, bf in st.bufs.items():
+        sym, ln = z3.Int(fresh_name('unread')), z3.Int(fresh_name('unreadlen'))
+        st.assume(ln >= 0)
+        nb[key] = dict(bf, data=[('raw', sym, ln)], rpos=0, reading=True)
       st.bufs = nb
     head_heap = dict(st.heap)
     modkeys = self.keys_of_patterns(mods)
@@ -708,6 +717,7 @@ class StmtMixin(object):
       s1.frames[frame_id][idx] = mk_int(0)
       ls2 = dict(ls)
       ls2['havoc_locals'] = list(ls.get('havoc_locals', ())) + [idx]
+      ls2['invariant'] = list(ls.get('invariant', ())) + ['%s >= 0' % idx]     # the hidden position never goes negative
       def test(s, seq=seq):
         return s.frames[frame_id][idx].t < self.list_len(s, seq)
       def step(s):
